@@ -252,6 +252,14 @@ where
 {
     let num_of_nodes = graph.node_count();
 
+    // Distance of each node to itself is the default value (set before the edges are
+    // read, so that a negative self-loop shows up as a negative cycle)
+    for node in graph.node_identifiers() {
+        let index = graph.to_index(node);
+        set_object(m_dist, index, index, K::default());
+        set_object(m_prev, index, index, Some(index));
+    }
+
     // Initialize distances and predecessors for edges
     for edge in graph.edge_references() {
         let source = graph.to_index(edge.source());
@@ -266,13 +274,6 @@ where
                 set_object(m_prev, target, source, Some(target));
             }
         }
-    }
-
-    // Distance of each node to itself is the default value
-    for node in graph.node_identifiers() {
-        let index = graph.to_index(node);
-        set_object(m_dist, index, index, K::default());
-        set_object(m_prev, index, index, Some(index));
     }
 
     // Perform the Floyd-Warshall algorithm
